@@ -38,6 +38,95 @@ open RsslVerif.Gen.RankTable RsslVerif.Model.Conv
 inductive SeqPath where | free | method | intrinsic
   deriving DecidableEq, Repr
 
+/-- a symbol of a scope's vector for the name: `ScopeSymbol::Function`, `Type` (a struct, a typedef, the type of an enum),
+    `ConstantBuffer`, `Namespace`, `EnumScope` — the kinds that may stand in one vector with a function
+    (`find_identifier_in_scope`'s `debug_assert!`; every other kind is a value and refuses / is refused by a function of
+    the name when it is inserted) -/
+inductive Sym where
+  | fn (c : TCand)
+  | type
+  | cbuffer
+  | namespace
+  | enumScope
+  deriving DecidableEq, Repr
+
+def Sym.isFunction : Sym → Bool
+  | .fn _ => true
+  | .type => false
+  | .cbuffer => false
+  | .namespace => false
+  | .enumScope => false
+
+def Sym.fn? : Sym → Option TCand
+  | .fn c => some c
+  | .type => none
+  | .cbuffer => none
+  | .namespace => none
+  | .enumScope => none
+
+def Sym.isType : Sym → Bool
+  | .type => true
+  | .fn _ => false
+  | .cbuffer => false
+  | .namespace => false
+  | .enumScope => false
+
+/-- what declares a symbol of the name that is not a function -/
+inductive OtherKind where | struct | enum | typedef | cbuffer | namespace
+  deriving DecidableEq, Repr
+
+/-- `register_struct` / `register_typedef`: `Type`; `begin_enum`: `EnumScope` then `Type`; `insert_cbuffer`:
+    `ConstantBuffer`; `enter_namespace`: `Namespace` -/
+def OtherKind.syms : OtherKind → List Sym
+  | .struct => [.type]
+  | .typedef => [.type]
+  | .enum => [.enumScope, .type]
+  | .cbuffer => [.cbuffer]
+  | .namespace => [.namespace]
+
+def OtherKind.isType : OtherKind → Bool
+  | .struct => true
+  | .typedef => true
+  | .enum => true
+  | _ => false
+
+/-- the `for symbol in symbols` loop of `find_identifier_in_scope` over such a vector: a function is pushed onto
+    `overloads`, the four other kinds fall through their empty arms; the loop has no `break` and none of these arms
+    returns, so it visits every symbol -/
+def gatherLoop (overloads : List TCand) : List Sym → List TCand
+  | [] => overloads
+  | .fn c :: ss => gatherLoop (overloads ++ [c]) ss
+  | .type :: ss => gatherLoop overloads ss
+  | .cbuffer :: ss => gatherLoop overloads ss
+  | .namespace :: ss => gatherLoop overloads ss
+  | .enumScope :: ss => gatherLoop overloads ss
+
+/-- what `find_identifier_in_scope` answers for the name -/
+inductive Found where
+  /-- `VariableExpression::Function(UnresolvedFunction { overloads })` -/
+  | functions (v : List TCand)
+  /-- `VariableExpression::Type`: the second loop, reached only with no overload gathered -/
+  | type
+  /-- `None`: the caller goes on with the parent scope -/
+  | nothing
+  deriving DecidableEq, Repr
+
+/-- `find_identifier_in_scope` (no variable, not a struct scope): gather, `if !overloads.is_empty()` the functions, else
+    the first `Type` symbol, else `None` -/
+def findInScope (syms : List Sym) : Found :=
+  let overloads := gatherLoop [] syms
+  if !overloads.isEmpty then .functions overloads
+  else if syms.any Sym.isType then .type
+  else .nothing
+
+/-- `find_identifier`: the scopes the lookup walks, innermost first; the first one that answers decides -/
+def lookupChain : List (List Sym) → Found
+  | [] => .nothing
+  | s :: rest =>
+    match findInScope s with
+    | .nothing => lookupChain rest
+    | found => found
+
 inductive SeqItem where
   /-- a declaration of an overload (scope 0 = root scope / `struct S`, 1 = `namespace N` / `struct S2`) -/
   | decl (scope : Nat) (c : TCand)
@@ -51,6 +140,8 @@ inductive SeqItem where
   | helper (j : Nat) (mode : Nat) (args : List ETy)
   /-- a call `h_j(z)` with `Z` deduced as type number `z` -/
   | trigger (j : Nat) (z : Nat)
+  /-- a declaration of something that is not a function under the name of the overload set -/
+  | other (scope : Nat) (kind : OtherKind)
   deriving DecidableEq, Repr
 
 /-- what a call site (or a call that may instantiate a helper) shows -/
@@ -60,6 +151,9 @@ inductive SiteObs where
   | noname
   /-- the helper instance has a body already: nothing is resolved -/
   | cached
+  /-- the innermost scope that knows the name knows it as a type (no function of the name there): the call expression
+      is handed to `parse_expr_constructor`, no overload is resolved -/
+  | isType
   deriving DecidableEq, Repr
 
 def SiteObs.normalize : SiteObs → SiteObs
@@ -69,9 +163,9 @@ def SiteObs.normalize : SiteObs → SiteObs
 /-- what the type checker holds when it reaches an item -/
 structure SeqState where
   /-- symbol vector of the name in the root scope (for methods: `struct_registry[..].methods` of that name) -/
-  root : List TCand := []
+  root : List Sym := []
   /-- symbol vector of the name in `namespace N` -/
-  ns : List TCand := []
+  ns : List Sym := []
   /-- helper templates declared so far: number, lookup mode, argument types of the call in the body -/
   helpers : List (Nat × Nat × List ETy) := []
   /-- helper instances that have an implementation -/
@@ -93,30 +187,31 @@ def declaredIn (scope : Nat) : List SeqItem → List TCand
 /-- a struct registers all its methods before it type checks the first body -/
 def SeqState.init (p : SeqPath) (items : List SeqItem) : SeqState :=
   match p with
-  | .method => { root := declaredIn 0 items, ns := declaredIn 1 items }
+  | .method => { root := (declaredIn 0 items).map .fn, ns := (declaredIn 1 items).map .fn }
   | _ => {}
 
-/-- `find_identifier` on the name: the overload vector handed to `find_function_type`; `none` = unknown identifier -/
-def SeqState.visible (p : SeqPath) (st : SeqState) (mode : Nat) : Option (List TCand) :=
-  let v := match p with
-    | .free =>
-      match mode with
-      | 1 => st.ns
-      | 2 => if st.ns.isEmpty then st.root else st.ns
-      | _ => st.root
-    | .method =>
-      match mode with
-      | 2 => st.ns
-      | 3 => st.ns
-      | _ => st.root
-    | .intrinsic => st.root
-  if v.isEmpty then none else some v
+/-- `find_identifier` on the name: the overload vector handed to `find_function_type`, or the type the name denotes,
+    or nothing = unknown identifier -/
+def SeqState.visible (p : SeqPath) (st : SeqState) (mode : Nat) : Found :=
+  match p with
+  | .free =>
+    match mode with
+    | 1 => lookupChain [st.ns]
+    | 2 => lookupChain [st.ns, st.root]
+    | _ => lookupChain [st.root]
+  | .method =>
+    match mode with
+    | 2 => lookupChain [st.ns]
+    | 3 => lookupChain [st.ns]
+    | _ => lookupChain [st.root]
+  | .intrinsic => lookupChain [st.root]
 
 /-- `write_function` / `write_method` at a call that sees `v` -/
-def siteObs (v : Option (List TCand)) (explicit : List TArg) (args : List ETy) : SiteObs :=
+def siteObs (v : Found) (explicit : List TArg) (args : List ETy) : SiteObs :=
   match v with
-  | none => .noname
-  | some cands => .verdict (callT cands explicit args)
+  | .nothing => .noname
+  | .type => .isType
+  | .functions cands => .verdict (callT cands explicit args)
 
 def lookupHelper (j : Nat) : List (Nat × Nat × List ETy) → Option (Nat × List ETy)
   | [] => none
@@ -133,10 +228,18 @@ def seqStep (p : SeqPath) (st : SeqState) : SeqItem → SeqState × Option SiteO
   | .decl s c =>
     match p with
     | .method => (st, none)   -- registered before the bodies
-    | .intrinsic => ({ st with root := st.root ++ [c] }, none)
+    | .intrinsic => ({ st with root := st.root ++ [.fn c] }, none)
     | .free =>
-      if s = 0 then ({ st with root := st.root ++ [c] }, none)
-      else if s = 1 then ({ st with ns := st.ns ++ [c] }, none)
+      if s = 0 then ({ st with root := st.root ++ [.fn c] }, none)
+      else if s = 1 then ({ st with ns := st.ns ++ [.fn c] }, none)
+      else (st, none)
+  | .other s k =>
+    match p with
+    | .method => (st, none)   -- a struct body declares no such thing
+    | .intrinsic => ({ st with root := st.root ++ k.syms }, none)
+    | .free =>
+      if s = 0 then ({ st with root := st.root ++ k.syms }, none)
+      else if s = 1 then ({ st with ns := st.ns ++ k.syms }, none)
       else (st, none)
   | .define _ => (st, none)
   | .site m x a => (st, some (siteObs (st.visible p m) x a))
@@ -226,10 +329,11 @@ def callTR (r : InstReg) (cands : List TCand) (explicit : List TArg) (args : Lis
   let (casts, r') := viableCastsR explicit args r cands
   (finishCall cands explicit args (resolveCasts casts), r')
 
-def siteObsR (r : InstReg) (v : Option (List TCand)) (explicit : List TArg) (args : List ETy) : SiteObs × InstReg :=
+def siteObsR (r : InstReg) (v : Found) (explicit : List TArg) (args : List ETy) : SiteObs × InstReg :=
   match v with
-  | none => (.noname, r)
-  | some cands => let (o, r') := callTR r cands explicit args; (.verdict o, r')
+  | .nothing => (.noname, r)
+  | .type => (.isType, r)
+  | .functions cands => let (o, r') := callTR r cands explicit args; (.verdict o, r')
 
 /-- `seqStep` with the registry -/
 def seqStepR (p : SeqPath) (st : SeqState) (r : InstReg) : SeqItem → SeqState × InstReg × Option SiteObs
